@@ -64,3 +64,12 @@ Definition check_sign (c : sign_case) : bool :=
 Definition check_sign_old (c : sign_case) : bool :=
   let m := sign_model_old c in
   if snd c =? 0 then m =? 0 else negb (m =? 0).
+
+(** lifecycle case (a real node, one channel id: setup_channel attempts, then commitment
+    requests): ((profile, rules, policy, onchain), requests, observed answers 0/1/2) *)
+Definition life_case : Type := (profile * list rule * policy * bool) * list lop * list N.
+Definition life_model_with (est : profile -> N -> N -> trap N) (c : life_case) : list N :=
+  let '((prof, rules, pol, oc), ops, _) := c in
+  ltrace (est prof) prof (warn_of rules) pol oc Stub ops.
+Definition life_model : life_case -> list N := life_model_with (fun _ => est_new).
+Definition check_life (c : life_case) : bool := beq (life_model c) (snd c).
